@@ -88,7 +88,7 @@ def generate(seed, tier):
             inv = rng.random() < 0.4
             nsl = rng.choice([512, 768, 1024])
         ops.append({"op": "case", "sps": sps, "R": rng.choice([1e9, 10e9, 2.5e9]), "nslots": nsl,
-                    "pattern": pattern, "inv": inv, "gvstyle": rng.choice(["sps", "sps", "sps", "fs", "fsdt"]),
+                    "pattern": pattern, "inv": inv, "gvstyle": rng.choice(["sps", "sps", "sps", "fs", "fsdt", "spsdt"]),
                     "early": rng.random() < 0.25,
                     "bseed": rng.getrandbits(31),
                     "a": a, "swing": swing, "bwf": rng.uniform(0.7, 1.0),
